@@ -1190,6 +1190,18 @@ func c20Witnesses(r *Rec) {
 		ep.endBlock(101)
 		ep.endBlock(6)
 	}
+	// 4b. the same with the roles swapped: in one of the two the positive record comes BEFORE the zero record in the
+	// keeper's scan (by address): the refunds made before the failing one must not stay
+	{
+		r.Mark("witness zero bond record blocks refund (other order)")
+		ep := newL2Ep(r, 3, []string{"alpha"}, []string{"alp"}, 1, 5, 100, -1)
+		ep.create(2, ep.mkDapp("alpha", "alp", "0.5", 50, 0, 0, "0.01", 2, 2), "ukex", 500_000)
+		ep.bond(1, "alpha", "ukex", 7)
+		ep.reclaim(1, "alpha", "ukex", 7)
+		ep.bond(0, "alpha", "ukex", 300_000)
+		ep.endBlock(101)
+		ep.endBlock(6)
+	}
 	// 5. permissioned creation with a negative bond: recorded, never deposited
 	{
 		r.Mark("witness negative bond recorded")
